@@ -8,7 +8,8 @@
    i.e. the rule maps the row encoding of P to the row encoding of U P U^dagger. *)
 From Coq Require Import ZArith List Bool Arith PrimFloat.
 From QV Require Import Base.Mat Base.Zi C12.ModelFloat C12.ModelTableau C12.ModelExec C12.ModelMeasure
-  C12.Pauli C12.ProofsRules C12.ProofsCircuit C12.ProofsFloat C12.ProofsMeasure C12.ProofsExec.
+  C12.Pauli C12.ProofsRules C12.ProofsCircuit C12.ProofsFloat C12.ProofsMeasure C12.ProofsMeasure2
+  C12.ProofsMeasure3 C12.ProofsExec.
 Import ListNotations.
 Local Open Scope Z_scope.
 
@@ -173,6 +174,19 @@ Theorem cr_flag_refuted : exists theta : float, flag theta = true /\ crot_branch
 Proof. exact ProofsFloat.cr_flag_refuted. Qed.
 Print Assumptions cr_flag_refuted.
 
+(* cr_half_* : about the candidate repair `_CRn_.clifford tests theta / 2` (withdrawn; see ModelExec.clifford_at) *)
+Theorem cr_half_flag_ok_K : forall k, - 4096 <= k <= 4096 ->
+  (flag_half (ang_a k) = true -> crot_branch (ang_a k) <> None)
+  /\ (flag_half (ang_b k) = true -> crot_branch (ang_b k) <> None)
+  /\ (flag_half (ang_pi k) = true -> crot_branch (ang_pi k) = Some (Z.to_nat (k mod 4)))
+  /\ (Z.odd k = true -> flag_half (ang_a k) = false) /\ (Z.odd k = true -> flag_half (ang_b k) = false).
+Proof. exact ProofsFloat.cr_half_flag_ok_K. Qed.
+Print Assumptions cr_half_flag_ok_K.
+
+Theorem cr_half_flag_sound_refuted : exists theta : float, flag_half theta = true /\ crot_branch theta = None.
+Proof. exact ProofsFloat.cr_half_flag_sound_refuted. Qed.
+Print Assumptions cr_half_flag_sound_refuted.
+
 Theorem rx_gate_meaning_K : forall k q, - 4096 <= k <= 4096 -> flag (ang_a k) = true ->
   sop_of_gate (mkGate cRX [q] [] [q] (Some (PFloat (ang_a k))) (Some (ang_a k)) false)
   = Some (S1 (of_mat1 (M_RX (Z.to_nat (k mod 4)))) (m_RX_branch (Z.to_nat (k mod 4))) q).
@@ -200,7 +214,10 @@ Theorem controlled_sim_refuted : exists T w, execute_circuit 3 ccz_circuit = Fin
 Proof. exact ProofsExec.controlled_sim_refuted. Qed.
 Print Assumptions controlled_sim_refuted.
 
-(* ================= (4) measurement ================= *)
+(* ================= (4) measurement =================
+   old_* : history. The engine BEFORE the repairs e7dd78371 / 5cb9f09ff (model M_old);
+   kept so that a regression to that code is recognised. *)
+
 
 Theorem exponent_is_g : forall x1 z1 x2 z2, (exponent_bit x1 z1 x2 z2) mod 4 = (ag_g x1 z1 x2 z2) mod 4.
 Proof. exact ProofsMeasure.exponent_is_g. Qed.
@@ -221,27 +238,72 @@ Theorem rowsum_bits_is_ag : forall wh wi, rowsum_bits wh wi = rowsum_ag wh wi.
 Proof. exact ProofsMeasure.rowsum_bits_is_ag. Qed.
 Print Assumptions rowsum_bits_is_ag.
 
-Theorem rowsum_packed_refuted : exists wh wi, row_wf 2 wh /\ row_wf 2 wi /\ (total_ag wh wi) mod 2 = 0
+Theorem old_rowsum_packed_refuted : exists wh wi, row_wf 2 wh /\ row_wf 2 wi /\ (total_ag wh wi) mod 2 = 0
                 /\ rowsum_packed wh wi <> rowsum_ag wh wi.
 Proof. exact ProofsMeasure.rowsum_packed_refuted. Qed.
-Print Assumptions rowsum_packed_refuted.
+Print Assumptions old_rowsum_packed_refuted.
 
-Theorem determined_refuted : exists n T q, T = witness_T /\ n = 3%nat /\ first_p n q T = None
+Theorem old_determined_refuted : exists n T q, T = witness_T /\ n = 3%nat /\ first_p n q T = None
                 /\ rr (determined_real n T q) <> rr (determined_spec n T q).
 Proof. exact ProofsMeasure.determined_refuted. Qed.
-Print Assumptions determined_refuted.
+Print Assumptions old_determined_refuted.
 
 Theorem rowsum_stabilises : forall n wh wi psi, row_wf n wh -> row_wf n wi -> (total_ag wh wi) mod 2 = 0 ->
   stabilises n wh psi -> stabilises n wi psi -> stabilises n (rowsum_ag wh wi) psi.
 Proof. exact ProofsMeasure.rowsum_stabilises. Qed.
 Print Assumptions rowsum_stabilises.
 
-Theorem determined_spec_stabilises_partial : forall n psi ws acc,
-  row_wf n acc -> stabilises n acc psi ->
-  (forall w, In w ws -> row_wf n w /\ stabilises n w psi) -> acc_even acc ws ->
-  stabilises n (fold_left rowsum_ag ws acc) psi.
-Proof. exact ProofsMeasure.determined_spec_stabilises_partial. Qed.
-Print Assumptions determined_spec_stabilises_partial.
+Theorem M_real_is_spec : forall qs n T o, M_real n T qs o = M_spec n T qs o.
+Proof. exact ProofsMeasure2.M_real_is_spec. Qed.
+Print Assumptions M_real_is_spec.
+
+Theorem determined_bits_is_spec : forall n T q, determined_bits n T q = determined_spec n T q.
+Proof. exact ProofsMeasure2.determined_bits_is_spec. Qed.
+Print Assumptions determined_bits_is_spec.
+
+Theorem stab_pair_even : forall n acc w psi,
+  row_wf n acc -> row_wf n w -> stabilises n acc psi -> stabilises n w psi -> nonzero n psi ->
+  (total_ag acc w) mod 2 = 0.
+Proof. exact ProofsMeasure2.stab_pair_even. Qed.
+Print Assumptions stab_pair_even.
+
+Theorem determined_spec_stabilises : forall n T q psi,
+  nonzero n psi ->
+  (forall i, (i < n)%nat -> row_wf n (trow T (n + i)) /\ stabilises n (trow T (n + i)) psi) ->
+  row_wf n (determined_spec n T q) /\ stabilises n (determined_spec n T q) psi.
+Proof. exact ProofsMeasure2.determined_spec_stabilises. Qed.
+Print Assumptions determined_spec_stabilises.
+
+Theorem determined_support : forall n q o psi,
+  (q < n)%nat -> stabilises n (zeros n, unit_vec n q, o) psi ->
+  forall b, length b = n -> bit q b <> o -> psi b = zi0.
+Proof. exact ProofsMeasure2.determined_support. Qed.
+Print Assumptions determined_support.
+
+Theorem random_outcome_half : forall n q w psi,
+  (q < n)%nat -> row_wf n w -> stabilises n w psi -> bit q (rx w) = true ->
+  forall b, length b = n ->
+    zi_norm2 (psi b) = zi_norm2 (psi (lxor b (rx w))) /\ bit q (lxor b (rx w)) = negb (bit q b)
+    /\ length (lxor b (rx w)) = n.
+Proof. exact ProofsMeasure2.random_outcome_half. Qed.
+Print Assumptions random_outcome_half.
+
+Theorem tableau_inv_M : forall total det qs n T o s T',
+  Inv n T -> Forall (fun q => (q < n)%nat) qs ->
+  measure (rowsum_with total) det n T qs o = Some (s, T') -> Inv n T'.
+Proof. exact ProofsMeasure3.tableau_inv_M. Qed.
+Print Assumptions tableau_inv_M.
+
+Theorem tableau_inv_gate : forall n o T, Inv n T -> op_symp o = true -> op_valid n o = true -> Inv n (tab_op o T).
+Proof. exact ProofsMeasure3.Inv_tab_op. Qed.
+Print Assumptions tableau_inv_gate.
+
+Example measurement_theorems_nonvacuous :
+  Inv 3 (zero_state 3) /\ nonzero 3 psi0 /\ stabilises_b 3 (determined_spec 3 witness_T 2) (run_spec witness_sops psi0) = true.
+Proof.
+  split; [exact ProofsMeasure3.Inv_zero_state_3|]. split; [|vm_compute; reflexivity].
+  exists [false; false; false]. split; [reflexivity|]. vm_compute. discriminate.
+Qed.
 
 Theorem all_rules_symplectic : forallb symp1_ok [m_I; m_H; m_S; m_SDG; m_X; m_Y; m_Z; m_SX; m_SXDG; m_RY_pi; m_RY_3pi_2] = true
   /\ forallb symp2_ok ([m_CNOT; m_CZ; m_CY; m_SWAP; m_iSWAP; m_FSWAP; m_ECR]
